@@ -6,6 +6,12 @@ Legs
                generated (post spikes scripted through ExactNeuron's ``override``, or
                observed from an input-driven neuron); delays none / frozen / ``delayed``;
                scalar and per-sample rewards; batch reductions.
+  multi      : ONE trainer (constructed with one set of hyper-parameters) training TWO cells of one
+               layer that share a neuron group (Biclique fan-in), a connection (fan-out) or are the
+               same Serial cell under two names, each registered with different per-cell overrides;
+               every connection is compared with the sum of its cells' own pair sums.
+  (pairs also constructs the trainer with other values -- often another sign mode -- and lets the
+   cell override them at register_cell in 2 of 5 cases; the oracle always uses the cell's values.)
   exhaustive : 1x1 dense cell, every pre/post history of length T (4^T) x trace modes x
                sign modes for STDP, plus TripletSTDP / MSTDPET on the same histories.
 Oracle: pbt.models.stdp (brute-force double loops over spike pairs, float64, built from the
@@ -1073,4 +1079,6 @@ ASSUMPTIONS = [
     "shows one that the implementation does not apply -- with dt = 1 they coincide)",
     "lateral connections: the diagonal is not a synapse (documented mask); only off-diagonal elements are compared",
     "no bounding / weight dependence configured (C10's subject)",
+    "multi: dense/direct/lateral connections, scripted post spikes; MSTDPET is not registered twice on the same "
+    "cell (its eligibility monitors read the traces through the cell's monitor-name map, C15's known finding)",
 ]
